@@ -13,6 +13,7 @@ import Univers.Driver.GemPypi
 import Univers.Driver.Generic
 import Univers.Driver.Gentoo
 import Univers.Driver.Maven
+import Univers.Driver.MavenConan
 import Univers.Driver.Npm
 import Univers.Driver.Nuget
 import Univers.Driver.Openssl
@@ -24,7 +25,7 @@ import Univers.Driver.Vers
 
 namespace Univers.Driver
 
-def handlers : List (List String → Option String) := [advisoryCmd, alpmCmd, conanCmd, debCmd, dispatchCmd, domainCmd, gemCmd, gemPypiCmd, genericCmd, gentooCmd, mavenCmd, npmCmd, nugetCmd, opensslCmd, pypiCmd, rpmCmd, semverCmd, textVersCmd, versCmd]
+def handlers : List (List String → Option String) := [advisoryCmd, alpmCmd, conanCmd, debCmd, dispatchCmd, domainCmd, gemCmd, gemPypiCmd, genericCmd, gentooCmd, mavenCmd, mavenConanCmd, npmCmd, nugetCmd, opensslCmd, pypiCmd, rpmCmd, semverCmd, textVersCmd, versCmd]
 
 def answer (line : String) : String :=
   let ws := (line.splitOn " ").filter (· ≠ "")
